@@ -772,6 +772,20 @@ class Pure:
             if name == "int" or name == "bool":
                 a = self.ev(e.args[0])
                 return a if name == "int" else VBool(truthy(a))
+            if name in ("p3a", "p3b", "p3c", "len3"):
+                # components of a list3 (flat list read as triples): p3a(path, d) == path[3*d] etc.
+                from .kinds import triple_sort
+
+                a = self.ev(e.args[0])
+                a = a.inner if isinstance(a, VOpt) else a
+                if not (isinstance(a, VSeq) and a.kind.startswith("list3[")):
+                    raise Unsupported(f"{name} of {a.kind}")
+                if name == "len3":
+                    return VInt(z3.Length(a.t))
+                dt, ks = triple_sort(a.kind)
+                c = "abc".index(name[2])
+                d = self.ev(e.args[1]).t
+                return wrap(ks[c], dt.accessor(0, c)(a.t[d]))
             if name == "prefix_of":
                 a, b = self.ev(e.args[0]), self.ev(e.args[1])
                 a = a.inner if isinstance(a, VOpt) else a
@@ -837,7 +851,7 @@ def wrap(kind: str, t) -> V:
         return VBool(t)
     if kind == "val":
         return VVal(t)
-    if kind == "str" or kind.startswith("list["):
+    if kind == "str" or kind.startswith("list[") or kind.startswith("list3["):
         return VSeq(kind, t)
     if is_class_kind(kind):
         return VObj(kind, t)
